@@ -336,13 +336,19 @@ func cmdCheck(args []string) int {
 		violLines = append(violLines, violationLine(prop, p, o, fcOf[o], *verif))
 	}
 	// locked obligations that vanished
-	var vanished []string
+	var vanished, vanishedSafety []string
 	for name := range locked {
 		if _, ok := byName[name]; !ok {
-			vanished = append(vanished, name)
+			if strings.Contains(name, "#safe-") {
+				// safety obligations disappear when the guarded operation disappears: reported, not an alarm
+				vanishedSafety = append(vanishedSafety, name)
+			} else {
+				vanished = append(vanished, name)
+			}
 		}
 	}
 	sort.Strings(vanished)
+	sort.Strings(vanishedSafety)
 	if *updateLock {
 		if err := rewriteLock(filepath.Join(*verif, "obligations.lock"), prop, all, findings); err != nil {
 			return undecided(err.Error())
@@ -387,6 +393,7 @@ func cmdCheck(args []string) int {
 		"uncontracted_callees":     sortedKeys(g.uncontracted),
 		"samples":                  samples,
 		"vanished_locked":          vanished,
+		"vanished_locked_safety":   vanishedSafety,
 		"notes":                    notes,
 		"lock_size":                len(locked),
 	}
@@ -418,15 +425,15 @@ func cmdCheck(args []string) int {
 		fmt.Printf("UNDECIDED property=%s reason=back ends disagree on %d obligation(s): %s\n", prop, crossFailed, strings.Join(crossNotes, "; "))
 		return 2
 	}
-	if len(vanished) > 0 {
-		fmt.Printf("UNDECIDED property=%s reason=%d locked obligation(s) were not generated (function or clause removed/renamed?): %s\n", prop, len(vanished), strings.Join(vanished[:minInt(3, len(vanished))], ","))
-		return 2
-	}
 	if nViol > 0 {
 		for _, l := range violLines {
 			fmt.Println(l)
 		}
 		return 1
+	}
+	if len(vanished) > 0 {
+		fmt.Printf("UNDECIDED property=%s reason=%d locked obligation(s) were not generated (function or clause removed/renamed?): %s\n", prop, len(vanished), strings.Join(vanished[:minInt(3, len(vanished))], ","))
+		return 2
 	}
 	return 0
 }
